@@ -36,3 +36,146 @@ func (r *Recorder) HasErrDoc() bool {
 	}
 	return false
 }
+
+// ---- typed views of XML responses (symbolic flavour: taken from the values
+// handed to the XML encoder) ----
+
+func (r *Recorder) lastXML() interface{} {
+	if len(r.XML) == 0 {
+		return nil
+	}
+	return r.XML[len(r.XML)-1]
+}
+
+func (r *Recorder) BucketNames() []string {
+	if s, ok := r.lastXML().(*gofakes3.Storage); ok {
+		return s.Buckets.Names()
+	}
+	return nil
+}
+
+func viewBase(b *gofakes3.ListBucketResultBase, v *ListView) {
+	v.OK = true
+	v.IsTruncated = b.IsTruncated
+	v.Prefix, v.Delimiter, v.MaxKeys = b.Prefix, b.Delimiter, b.MaxKeys
+	for _, c := range b.Contents {
+		v.Keys = append(v.Keys, c.Key)
+		v.Sizes = append(v.Sizes, c.Size)
+		v.ETags = append(v.ETags, c.ETag)
+	}
+	for _, p := range b.CommonPrefixes {
+		v.Prefixes = append(v.Prefixes, p.Prefix)
+	}
+}
+
+func (r *Recorder) List() (v ListView) {
+	switch x := r.lastXML().(type) {
+	case *gofakes3.ListBucketResult:
+		viewBase(&x.ListBucketResultBase, &v)
+		v.NextMarker = x.NextMarker
+	case *gofakes3.ListBucketResultV2:
+		viewBase(&x.ListBucketResultBase, &v)
+		v.V2 = true
+		v.NextToken = x.NextContinuationToken
+		v.KeyCount = x.KeyCount
+	}
+	return v
+}
+
+func (r *Recorder) Deleted() (keys []string, nerr int, ok bool) {
+	if d, isD := r.lastXML().(gofakes3.MultiDeleteResult); isD {
+		for _, o := range d.Deleted {
+			keys = append(keys, o.Key)
+		}
+		return keys, len(d.Error), true
+	}
+	return nil, 0, false
+}
+
+func (r *Recorder) UploadID() string {
+	if x, ok := r.lastXML().(gofakes3.InitiateMultipartUploadResult); ok {
+		return string(x.UploadID)
+	}
+	return ""
+}
+
+func (r *Recorder) CompleteETag() string {
+	if x, ok := r.lastXML().(*gofakes3.CompleteMultipartUploadResult); ok {
+		return x.ETag
+	}
+	return ""
+}
+
+func (r *Recorder) Versions() (v VersionsView) {
+	x, ok := r.lastXML().(*gofakes3.ListBucketVersionsResult)
+	if !ok {
+		return v
+	}
+	v.OK = true
+	v.IsTruncated = x.IsTruncated
+	v.NextKeyMarker, v.NextVersionIDMarker = x.NextKeyMarker, string(x.NextVersionIDMarker)
+	for _, p := range x.CommonPrefixes {
+		v.Prefixes = append(v.Prefixes, p.Prefix)
+	}
+	for _, it := range x.Versions {
+		switch e := it.(type) {
+		case *gofakes3.Version:
+			v.Items = append(v.Items, VersionEntry{Key: e.Key, VersionID: string(e.VersionID), IsLatest: e.IsLatest, Size: e.Size, ETag: e.ETag})
+		case *gofakes3.DeleteMarker:
+			v.Items = append(v.Items, VersionEntry{Key: e.Key, VersionID: string(e.VersionID), IsLatest: e.IsLatest, Marker: true})
+		}
+	}
+	return v
+}
+
+func (r *Recorder) Uploads() (v UploadsView) {
+	x, ok := r.lastXML().(*gofakes3.ListMultipartUploadsResult)
+	if !ok {
+		return v
+	}
+	v.OK = true
+	v.IsTruncated = x.IsTruncated
+	v.NextKeyMarker, v.NextUploadIDMarker = x.NextKeyMarker, string(x.NextUploadIDMarker)
+	for _, p := range x.CommonPrefixes {
+		v.Prefixes = append(v.Prefixes, p.Prefix)
+	}
+	for _, u := range x.Uploads {
+		v.Keys = append(v.Keys, u.Key)
+		v.IDs = append(v.IDs, string(u.UploadID))
+	}
+	return v
+}
+
+func (r *Recorder) Parts() (v PartsView) {
+	x, ok := r.lastXML().(*gofakes3.ListMultipartUploadPartsResult)
+	if !ok {
+		return v
+	}
+	v.OK = true
+	v.IsTruncated = x.IsTruncated
+	v.NextMarker = x.NextPartNumberMarker
+	for _, p := range x.Parts {
+		v.Numbers = append(v.Numbers, p.PartNumber)
+		v.Sizes = append(v.Sizes, p.Size)
+		v.ETags = append(v.ETags, p.ETag)
+	}
+	return v
+}
+
+// ---- request bodies ----
+
+func DeleteBody(objs []gofakes3.ObjectID, quiet bool) []byte {
+	return vstub.RegisterXMLBody(&vstub.XMLBody{Value: &gofakes3.DeleteRequest{Objects: objs, Quiet: quiet}})
+}
+
+func CompleteBody(parts []gofakes3.CompletedPart) []byte {
+	return vstub.RegisterXMLBody(&vstub.XMLBody{Value: &gofakes3.CompleteMultipartUploadRequest{Parts: parts}})
+}
+
+func VersioningBody(status string) []byte {
+	return vstub.RegisterXMLBody(&vstub.XMLBody{Value: &vstub.VersioningBody{HasStatus: true, Status: status}})
+}
+
+func MalformedXMLBody() []byte {
+	return vstub.RegisterXMLBody(&vstub.XMLBody{Malformed: true})
+}
